@@ -11,8 +11,10 @@ from netqasm.lang.parsing.binary import deserialize
 from netqasm.lang.parsing.text import parse_text_subroutine
 from netqasm.lang.subroutine import Subroutine
 
+PATHS = ("direct", "text", "setter", "instantiate", "template", "sdk")
 ASSUME = [
     "one out-of-range operand per vector, the others at in-range base values",
+    "paths: direct construction; the text assembler; Subroutine.app_id setter and Subroutine.instantiate(app_id) for the app id; a Template operand filled in by instantiate() for immediates of rotations; the SDK (rot_X/Y/Z numerator and denominator, constants of add / array initial values, the connection's app id) up to the serialised message",
     "wide values cross the TLC boundary as base-2^15 limbs",
     "text path: the text is what the real printer prints for the out-of-range instruction object (e.g. 'set R16 5')",
 ]
@@ -48,6 +50,8 @@ def attempt(path: str, v, cls, val):
         ops[v["pos"] - 1] = (ops[v["pos"] - 1] // 16, val)
     else:
         ops[v["pos"] - 1] = val
+    if path in ("setter", "instantiate", "template", "sdk"):
+        return attempt_other(path, v, cls, val, ops)
     try:
         instr = isa.build(cls, v["shape"], ops)
         if path == "direct":
@@ -56,6 +60,72 @@ def attempt(path: str, v, cls, val):
             text = f"# NETQASM 0.0\n# APPID {app}\n{instr}\n"
             sub = parse_text_subroutine(text, flavour=isa.FLAVOURS[v["fl"]]())
             b = bytes(sub)
+    except Exception as ex:
+        return "reject", f"{type(ex).__name__}: {ex}"[:160]
+    return "bytes", describe(b, v["fl"])
+
+
+def applicable(path: str, v) -> bool:
+    if path in ("direct", "text"):
+        return True
+    if path in ("setter", "instantiate"):
+        return v["kind"] == "app"
+    if path == "template":
+        return v["kind"] == "imm" and v["shape"] == "RegImmImm"
+    if path == "sdk":
+        return (v["kind"] == "app") or (v["fl"] == "vanilla" and ((v["kind"] == "imm" and v["mn"] in ("rot_x", "rot_y", "rot_z")) or (v["kind"] == "int" and v["mn"] == "set")))
+    return False
+
+
+def attempt_other(path, v, cls, val, ops):
+    from netqasm.backend.messages import deserialize_host_msg
+    from netqasm.lang.operand import Template
+    try:
+        if path == "setter":
+            sub = Subroutine(instructions=[isa.build(cls, v["shape"], ops)], app_id=0, netqasm_version=(0, 0))
+            sub.app_id = val
+            b = bytes(sub)
+        elif path == "instantiate":
+            sub = Subroutine(instructions=[isa.build(cls, v["shape"], ops)], app_id=0, netqasm_version=(0, 0))
+            sub.instantiate(app_id=val, arguments={})
+            b = bytes(sub)
+        elif path == "template":
+            base = list(ops)
+            base[v["pos"] - 1] = 1
+            instr = isa.build(cls, v["shape"], base)
+            setattr(instr, "imm0" if v["pos"] == 2 else "imm1", Template("t"))
+            sub = Subroutine(instructions=[instr], app_id=0, netqasm_version=(0, 0))
+            sub.instantiate(app_id=0, arguments={"t": val})
+            b = bytes(sub)
+        else:
+            from netqasm.sdk.connection import BaseNetQASMConnection, DebugConnection
+            from netqasm.sdk.qubit import Qubit
+            from netqasm.sdk.shared_memory import SharedMemoryManager
+            SharedMemoryManager.reset_memories()
+            BaseNetQASMConnection._app_ids.clear()
+            BaseNetQASMConnection._app_names.clear()
+            DebugConnection.node_ids = {"alice": 0}
+            if v["kind"] == "app":
+                conn = DebugConnection("alice", app_id=val)
+                Qubit(conn)
+            else:
+                conn = DebugConnection("alice")
+                if v["kind"] == "imm":
+                    q = Qubit(conn)
+                    n, d = (val, 2) if v["pos"] == 2 else (1, val)
+                    getattr(q, {"rot_x": "rot_X", "rot_y": "rot_Y", "rot_z": "rot_Z"}[v["mn"]])(n=n, d=d)
+                else:
+                    arr = conn.new_array(2, init_values=[val, 1])
+                    arr.get_future_index(1).add(val)
+            conn.flush()
+            subs = []
+            for raw in conn.storage:
+                m = deserialize_host_msg(raw)
+                if type(m).__name__ == "SubroutineMessage":
+                    subs.append(bytes(m.subroutine) if not isinstance(m.subroutine, (bytes, bytearray)) else bytes(m.subroutine))
+            b = subs[-1] if subs else b""
+            if not subs:
+                return "reject", "no subroutine was sent"
     except Exception as ex:
         return "reject", f"{type(ex).__name__}: {ex}"[:160]
     return "bytes", describe(b, v["fl"])
@@ -81,7 +151,9 @@ def run(prop: str, tier: str) -> int:
             v = row["v"]
             cls = clss[v["fl"]][v["n"] - 1]
             val = wide(v["w"])
-            for path in ("direct", "text"):
+            for path in PATHS:
+                if not applicable(path, v):
+                    continue
                 got, info = attempt(path, v, cls, val)
                 evals += 1
                 if row["expect"] == "bytes":
